@@ -581,18 +581,10 @@ func rulesC08(c *Ctx) {
 		walk(prodLoop)
 		ns := 0
 		for _, f := range c.P.AllModuleFuncs() {
-			eachInstr(f, func(_ *ssa.BasicBlock, _ int, in ssa.Instruction) {
-				s, isSend := in.(*ssa.Send)
-				if !isSend {
-					return
-				}
-				n, _ := fieldLoadName(s.Chan)
-				if n != "dirChan" && n != "fileChan" {
-					return
-				}
+			for _, qs := range queueSendsIn(f) {
 				ns++
-				c.Check(sync[f], "R5", fmt.Sprintf("send on %s in %s", n, fname(f)), s.Pos(), "runs synchronously inside a producer, before its deferred Done", "a queue send happens outside the producers' synchronous call tree: it can follow the close step / the channel close (lost item or panic)")
-			})
+				c.Check(sync[f], "R5", fmt.Sprintf("send on %s in %s", qs.name, fname(f)), qs.in.Pos(), "runs synchronously inside a producer, before its deferred Done", "a queue send happens outside the producers' synchronous call tree: it can follow the close step / the channel close (lost item or panic)")
+			}
 		}
 		c.Floor("R5", ns, 2)
 	}
